@@ -125,4 +125,371 @@ theorem update_contracts (cfg : Cfg) (ch : List Diff) (s : NState) (d : Diff) (h
     have hn0 := (hu hd0).2
     rcases hn : alook d.nonces a with _ | v <;> simp [hr, hn0]
 
+
+/-- `sysCreateC` and `purgeSys` leave ordinary contracts alone -/
+theorem sys_steps_ordinary (trie : Bucket Addr Leaves) (c : Bucket Addr Contract) (lv : Bucket Addr Leaves)
+    (b : Nat) (addrs touched : List Addr) (a : Addr) (ha : isSystem a = false) :
+    bget (purgeSys trie (sysCreateC c b addrs, lv) touched).1 a = bget c a := by
+  have h1 := purgeSys_get trie (sysCreateC c b addrs, lv) touched a
+  have h2 : bget (purgeSys trie (sysCreateC c b addrs, lv) touched).1 a =
+      (clGet (purgeSys trie (sysCreateC c b addrs, lv) touched) a).1 := rfl
+  rw [h2, h1, sysCreateC_get]
+  simp [ha, clGet, sysCreateC_get]
+
+/-- tries after `Update` / `Revert`'s storage writes -/
+theorem writeSlots_spec (cfg : Cfg) (tr lv : Bucket Addr Leaves) (l : List (Addr × List (Slot × Val)))
+    (hnd : (l.map (·.1)).Nodup) (hnds : ∀ p ∈ l, (p.2.map (·.1)).Nodup)
+    (hz : ∀ a, NoZero (lget tr a)) (a : Addr) :
+    (∀ k, tget (lget (writeSlots cfg (tr, lv) l).1 a) k =
+      ((alook l a).bind (fun slots => alook slots k)).getD (tget (lget tr a) k)) ∧
+    NoZero (lget (writeSlots cfg (tr, lv) l).1 a) ∧
+    (cfg.leafFix = true → lget lv a = lget tr a →
+      lget (writeSlots cfg (tr, lv) l).2 a = lget (writeSlots cfg (tr, lv) l).1 a) := by
+  have h := writeSlots_get cfg (tr, lv) l hnd a
+  have e1 : lget (writeSlots cfg (tr, lv) l).1 a = (lget (writeSlots cfg (tr, lv) l).1 a, lget (writeSlots cfg (tr, lv) l).2 a).1 := rfl
+  have e2 : lget (writeSlots cfg (tr, lv) l).2 a = (lget (writeSlots cfg (tr, lv) l).1 a, lget (writeSlots cfg (tr, lv) l).2 a).2 := rfl
+  rw [e1, e2, h]
+  rcases hl : alook l a with _ | slots
+  · simp only [ocases_none, Option.bind_none, Option.getD_none]
+    exact ⟨fun _ => trivial, hz a, fun _ h => h⟩
+  · simp only [ocases_some, Option.bind_some]
+    have hs := applySlots_spec cfg (lget tr a) (lget lv a) slots
+      (hnds (a, slots) (mem_of_alook_eq_some _ _ _ hl)) (hz a)
+    exact ⟨hs.1, hs.2.1, hs.2.2⟩
+
+
+theorem deployed_not_system (d : Diff) (hwf : d.WF) (a : Addr) (h : a ∈ d.deployed.map (·.1)) : isSystem a = false := by
+  cases hs : isSystem a with
+  | false => rfl
+  | true => exact absurd h (hwf.noSys a hs).1
+
+/-- `Update` extends the invariant by the stored block -/
+theorem ninv_store (cfg : Cfg) (ch : List Diff) (s s' : NState) (d : Diff) (hinv : NInv cfg ch s) (hwf : d.WF)
+    (hup : s.update cfg ch.length d = .ok s') : NInv cfg (d :: ch) s' := by
+  obtain ⟨hg, hs'⟩ := update_ok cfg s s' ch.length d hup
+  have hc4 := update_contracts cfg ch s d hinv hwf hg
+  have hdep0 : ∀ a, a ∈ d.deployed.map (·.1) → (absOf ch).dep a = none := by
+    intro a ha
+    obtain ⟨p, hp, rfl⟩ := List.mem_map.mp ha
+    have h1 := hg.g1 p hp
+    rw [hinv.contracts p.1 (deployed_not_system d hwf p.1 ha)] at h1
+    rcases hx : (absOf ch).dep p.1 with _ | h
+    · rfl
+    · simp [hx] at h1
+  -- an ordinary contract that is still not deployed has no entry in the diff
+  have hnoentry : ∀ a, isSystem a = false → (absOf (d :: ch)).dep a = none →
+      alook d.storage a = none ∧ alook d.nonces a = none := by
+    intro a ha hd
+    have hc := hc4 a ha
+    rw [hd] at hc
+    simp only [Option.map_none] at hc
+    constructor
+    · rcases hx : alook d.storage a with _ | slots
+      · rfl
+      · have := hg.g4 (a, slots) (mem_of_alook_eq_some _ _ _ hx)
+        simp [hc, ha] at this
+    · rcases hx : alook d.nonces a with _ | v
+      · rfl
+      · have := hg.g3 (a, v) (mem_of_alook_eq_some _ _ _ hx)
+        have hc3 : bget (setClassC (deployC s.contracts ch.length d.deployed) d.replaced) a = none := by
+          rw [setNonceC_get _ _ hwf.nonceNodup, hx] at hc
+          simp only [ocases_some, Option.map_eq_none_iff] at hc
+          exact hc
+        simp [hc3] at this
+  subst hs'
+  refine ⟨?_, ?_, ?_, ?_, ?_, ?_, ?_, ?_, ?_⟩
+  · intro x hx
+    rcases List.mem_cons.mp hx with e | e
+    · subst e; exact hwf
+    · exact hinv.wf x e
+  · exact ⟨hdep0, hinv.depOnce⟩
+  · refine ⟨?_, hinv.undep⟩
+    intro a ha hd
+    have hne := hnoentry a ha hd
+    have hd' : (absOf ch).dep a = none := by
+      change ((absOf ch).apply ch.length d).dep a = none at hd
+      simp only [AbsSt.apply] at hd
+      rcases hx : alook d.deployed a with _ | c
+      · simpa [hx] using hd
+      · simp [hx] at hd
+    have hold := hinv.undep.head a ha hd'
+    change (∀ k, ((absOf ch).apply ch.length d).stor a k = 0) ∧ ((absOf ch).apply ch.length d).nonce a = 0
+    simp only [AbsSt.apply, Diff.storageAt, hne.1, hne.2, Option.bind_none, Option.getD_none]
+    exact hold
+  · intro key
+    simp only
+    rw [histPutAll_get _ _ _ hwf, hinv.hist key]
+    simp only [histOf]
+    rcases entryOf d key with _ | v
+    · rfl
+    · simp only [ocases_some]
+      exact hput_below _ _ _ (histOf_below ch key)
+  · intro a ha
+    simp only
+    rw [sys_steps_ordinary _ _ _ _ _ _ a ha]
+    exact hc4 a ha
+  · intro a k
+    simp only
+    rw [(writeSlots_spec cfg s.trie s.leaves d.storage hwf.storNodup hwf.slotNodup hinv.trieNZ a).1 k, hinv.trie a k]
+    rfl
+  · intro a
+    exact (writeSlots_spec cfg s.trie s.leaves d.storage hwf.storNodup hwf.slotNodup hinv.trieNZ a).2.1
+  · intro hfix a
+    simp only
+    have hp := purgeSys_get (writeSlots cfg (s.trie, s.leaves) d.storage).1
+      (sysCreateC (setNonceC (setClassC (deployC s.contracts ch.length d.deployed) d.replaced) d.nonces) ch.length
+        (d.storage.map (·.1)), (writeSlots cfg (s.trie, s.leaves) d.storage).2) d.touched a
+    have e2 : ∀ (x : Bucket Addr Contract × Bucket Addr Leaves), lget x.2 a = (clGet x a).2 := fun _ => rfl
+    rw [e2, hp]
+    have hw := (writeSlots_spec cfg s.trie s.leaves d.storage hwf.storNodup hwf.slotNodup hinv.trieNZ a).2.2 hfix
+      (hinv.leaves hfix a)
+    split
+    · next hhit =>
+      have : (lget (writeSlots cfg (s.trie, s.leaves) d.storage).1 a).isEmpty = true := hhit.2.2.2
+      simp only [List.isEmpty_iff] at this
+      simp [this]
+    · simpa [clGet] using hw
+  · intro c
+    simp only
+    rw [declareFold_get, hinv.classes c]
+    change _ = ((absOf ch).apply ch.length d).decl c
+    simp only [AbsSt.apply]
+    rcases hx : (absOf ch).decl c with _ | n
+    · by_cases hc : c ∈ d.classHashes <;> simp [hc]
+    · simp
+
+
+/-! ### Revert -/
+
+theorem revert_ok (cfg : Cfg) (s s' : NState) (b : Nat) (d : Diff) (h : s.revert cfg b d = .ok s') :
+    s' =
+      (let rs := s.reverseStorage b d
+       let rn := s.reverseNonces b d
+       let rr := s.reverseReplaced b d
+       let c3 := setNonceC (setClassC s.contracts rr) rn
+       let c4 := sysCreateC c3 b (rs.map (·.1))
+       let tl := writeSlots cfg (s.trie, s.leaves) rs
+       let x := deleteContracts (c4, tl.1, tl.2) d.deployed
+       let cl := purgeSys x.2.1 (x.1, x.2.2) d.touched
+       { contracts := cl.1, trie := x.2.1, leaves := cl.2,
+         classes := undeclareFold s.classes b d.classHashes,
+         hist := histDelAll s.hist b d }) := by
+  unfold NState.revert at h
+  simp only at h
+  split at h
+  · cases h
+  · split at h
+    · cases h
+    · split at h
+      · cases h
+      · split at h
+        · cases h
+        · cases h; rfl
+
+theorem deleteContracts_get (x : Bucket Addr Contract × Bucket Addr Leaves × Bucket Addr Leaves)
+    (l : List (Addr × CHash)) (a : Addr) :
+    (bget (deleteContracts x l).1 a, lget (deleteContracts x l).2.1 a, lget (deleteContracts x l).2.2 a) =
+      if a ∈ l.map (·.1) then (none, [], []) else (bget x.1 a, lget x.2.1 a, lget x.2.2 a) := by
+  unfold deleteContracts
+  induction l generalizing x with
+  | nil => simp
+  | cons p r ih =>
+    simp only [List.foldl_cons]
+    rw [ih]
+    simp only [bget_bset, lget_lset, List.map_cons, List.mem_cons]
+    by_cases h1 : a ∈ r.map (·.1)
+    · simp [h1]
+    · by_cases h2 : a = p.1 <;> simp [h1, h2]
+
+theorem purgeSys_ordinary (trie : Bucket Addr Leaves) (cl : Bucket Addr Contract × Bucket Addr Leaves)
+    (touched : List Addr) (a : Addr) (ha : isSystem a = false) :
+    bget (purgeSys trie cl touched).1 a = bget cl.1 a := by
+  have h1 := purgeSys_get trie cl touched a
+  have h2 : bget (purgeSys trie cl touched).1 a = (clGet (purgeSys trie cl touched) a).1 := rfl
+  rw [h2, h1]
+  simp [ha, clGet]
+
+theorem sysCreateC_ordinary (c : Bucket Addr Contract) (b : Nat) (addrs : List Addr) (a : Addr)
+    (ha : isSystem a = false) : bget (sysCreateC c b addrs) a = bget c a := by
+  rw [sysCreateC_get]; simp [ha]
+
+/-- the values `GetReverseStateDiff` reads are those of the state before the block -/
+theorem ninv_reverse_value (cfg : Cfg) (d : Diff) (rest : List Diff) (s : NState) (hinv : NInv cfg (d :: rest) s)
+    (key : HKey) :
+    (if rest.length = 0 then 0 else newHistorical (lget s.hist key) (rest.length - 1)) = keyVal (absOf rest) key := by
+  rw [hinv.hist key]
+  exact reverse_value d rest hinv.wf key
+
+/-- `Revert` of the head block restores the invariant of the chain without it -/
+theorem ninv_revert (cfg : Cfg) (d : Diff) (rest : List Diff) (s s' : NState) (hinv : NInv cfg (d :: rest) s)
+    (hrev : s.revert cfg rest.length d = .ok s') : NInv cfg rest s' := by
+  have hs' := revert_ok cfg s s' rest.length d hrev
+  have hwf : d.WF := hinv.wf d List.mem_cons_self
+  have hrv := ninv_reverse_value cfg d rest s hinv
+  -- lookups in the reverse diff
+  have hrs : ∀ a k, ((alook (s.reverseStorage rest.length d) a).bind (fun slots => alook slots k)) =
+      (d.storageAt a k).map (fun _ => (absOf rest).stor a k) := by
+    intro a k
+    unfold NState.reverseStorage Diff.storageAt
+    rw [alook_map_key d.storage (fun a slots => slots.map (fun e =>
+      (e.1, if rest.length = 0 then 0 else newHistorical (lget s.hist (.storage a e.1)) (rest.length - 1)))) a]
+    rcases alook d.storage a with _ | slots
+    · rfl
+    · simp only [Option.map_some, Option.bind_some]
+      rw [alook_map_key slots (fun k _ =>
+        if rest.length = 0 then 0 else newHistorical (lget s.hist (.storage a k)) (rest.length - 1)) k]
+      rw [hrv (.storage a k)]
+      rfl
+  have hrn : ∀ a, alook (s.reverseNonces rest.length d) a = (alook d.nonces a).map (fun _ => (absOf rest).nonce a) := by
+    intro a
+    unfold NState.reverseNonces
+    rw [alook_map_key d.nonces (fun a _ =>
+      if rest.length = 0 then 0 else newHistorical (lget s.hist (.nonce a)) (rest.length - 1)) a, hrv (.nonce a)]
+    rfl
+  have hrr : ∀ a, alook (s.reverseReplaced rest.length d) a = (alook d.replaced a).map (fun _ => (absOf rest).cls a) := by
+    intro a
+    unfold NState.reverseReplaced
+    rw [alook_map_key d.replaced (fun a _ =>
+      if rest.length = 0 then 0 else newHistorical (lget s.hist (.classHash a)) (rest.length - 1)) a, hrv (.classHash a)]
+    rfl
+  have hndS : ((s.reverseStorage rest.length d).map (·.1)).Nodup := by
+    unfold NState.reverseStorage
+    rw [map_map_fst d.storage (fun a slots => slots.map (fun e =>
+      (e.1, if rest.length = 0 then 0 else newHistorical (lget s.hist (.storage a e.1)) (rest.length - 1))))]
+    exact hwf.storNodup
+  have hndSS : ∀ p ∈ s.reverseStorage rest.length d, (p.2.map (·.1)).Nodup := by
+    intro p hp
+    unfold NState.reverseStorage at hp
+    obtain ⟨q, hq, rfl⟩ := List.mem_map.mp hp
+    simp only
+    rw [map_map_fst q.2 (fun k _ =>
+      if rest.length = 0 then 0 else newHistorical (lget s.hist (.storage q.1 k)) (rest.length - 1))]
+    exact hwf.slotNodup q hq
+  have hndN : ((s.reverseNonces rest.length d).map (·.1)).Nodup := by
+    unfold NState.reverseNonces
+    rw [map_map_fst d.nonces (fun a _ =>
+      if rest.length = 0 then 0 else newHistorical (lget s.hist (.nonce a)) (rest.length - 1))]
+    exact hwf.nonceNodup
+  have hndR : ((s.reverseReplaced rest.length d).map (·.1)).Nodup := by
+    unfold NState.reverseReplaced
+    rw [map_map_fst d.replaced (fun a _ =>
+      if rest.length = 0 then 0 else newHistorical (lget s.hist (.classHash a)) (rest.length - 1))]
+    exact hwf.repNodup
+  have hws := writeSlots_spec cfg s.trie s.leaves (s.reverseStorage rest.length d) hndS hndSS hinv.trieNZ
+  have hdc := deleteContracts_get
+    (sysCreateC (setNonceC (setClassC s.contracts (s.reverseReplaced rest.length d)) (s.reverseNonces rest.length d))
+      rest.length ((s.reverseStorage rest.length d).map (·.1)),
+     (writeSlots cfg (s.trie, s.leaves) (s.reverseStorage rest.length d)).1,
+     (writeSlots cfg (s.trie, s.leaves) (s.reverseStorage rest.length d)).2) d.deployed
+  -- the abstract state of the head in terms of the one before
+  have habs : absOf (d :: rest) = (absOf rest).apply rest.length d := rfl
+  subst hs'
+  refine ⟨?_, hinv.depOnce.2, hinv.undep.2, ?_, ?_, ?_, ?_, ?_, ?_⟩
+  · intro x hx; exact hinv.wf x (List.mem_cons_of_mem _ hx)
+  · -- history entries of the block are gone
+    intro key
+    simp only
+    rw [histDelAll_get _ _ _ hwf, hinv.hist key]
+    simp only [histOf]
+    rcases he : entryOf d key with _ | v
+    · simp only
+      split
+      · exact hdel_below _ _ (histOf_below rest key)
+      · rfl
+    · have hdk : delKey d key = true := by
+        cases key with
+        | storage a k => simpa [delKey, entryOf] using (by rw [show d.storageAt a k = some v from he]; rfl : (d.storageAt a k).isSome = true)
+        | nonce a => simp only [entryOf] at he; simp [delKey, he]
+        | classHash a =>
+          simp only [entryOf] at he
+          rcases hd : alook d.deployed a with _ | c
+          · simp only [hd] at he; simp [delKey, he]
+          · simp [delKey, hd]
+      simp only [hdk, if_true]
+      exact hdel_append_last _ _ _ (histOf_below rest key)
+  · -- contract records
+    intro a ha
+    simp only
+    rw [purgeSys_ordinary _ _ _ a ha]
+    have h1 := congrArg Prod.fst (hdc a)
+    simp only at h1
+    rw [h1]
+    by_cases hmem : a ∈ d.deployed.map (·.1)
+    · simp only [hmem, if_true]
+      rw [hinv.depOnce.1 a hmem]; rfl
+    · simp only [hmem, if_false]
+      rw [sysCreateC_ordinary _ _ _ a ha, setNonceC_get _ _ hndN, setClassC_get _ _ hndR, hrn, hrr,
+        hinv.contracts a ha, habs]
+      have hdn : alook d.deployed a = none := (alook_eq_none_iff _ _).mpr hmem
+      simp only [AbsSt.apply, hdn]
+      rcases hold : (absOf rest).dep a with _ | h
+      · rcases hr : alook d.replaced a with _ | c' <;> rcases hn : alook d.nonces a with _ | v <;> simp
+      · rcases hr : alook d.replaced a with _ | c' <;> rcases hn : alook d.nonces a with _ | v <;> simp
+  · -- tries
+    intro a k
+    simp only
+    have h1 := congrArg (fun t => t.2.1) (hdc a)
+    simp only at h1
+    rw [h1]
+    by_cases hmem : a ∈ d.deployed.map (·.1)
+    · simp only [hmem, if_true]
+      have := (hinv.undep.2.head a (deployed_not_system d hwf a hmem) (hinv.depOnce.1 a hmem)).1 k
+      rw [this]; rfl
+    · simp only [hmem, if_false]
+      rw [(hws a).1 k, hrs a k, hinv.trie a k, habs]
+      simp only [AbsSt.apply]
+      rcases d.storageAt a k with _ | v <;> rfl
+  · intro a
+    simp only
+    have h1 := congrArg (fun t => t.2.1) (hdc a)
+    simp only at h1
+    rw [h1]
+    by_cases hmem : a ∈ d.deployed.map (·.1)
+    · simp only [hmem, if_true]; intro p hp; cases hp
+    · simp only [hmem, if_false]; exact (hws a).2.1
+  · intro hfix a
+    simp only
+    have hp := purgeSys_get
+      (deleteContracts
+        (sysCreateC (setNonceC (setClassC s.contracts (s.reverseReplaced rest.length d)) (s.reverseNonces rest.length d))
+          rest.length ((s.reverseStorage rest.length d).map (·.1)),
+         (writeSlots cfg (s.trie, s.leaves) (s.reverseStorage rest.length d)).1,
+         (writeSlots cfg (s.trie, s.leaves) (s.reverseStorage rest.length d)).2) d.deployed).2.1
+      ((deleteContracts
+        (sysCreateC (setNonceC (setClassC s.contracts (s.reverseReplaced rest.length d)) (s.reverseNonces rest.length d))
+          rest.length ((s.reverseStorage rest.length d).map (·.1)),
+         (writeSlots cfg (s.trie, s.leaves) (s.reverseStorage rest.length d)).1,
+         (writeSlots cfg (s.trie, s.leaves) (s.reverseStorage rest.length d)).2) d.deployed).1,
+       (deleteContracts
+        (sysCreateC (setNonceC (setClassC s.contracts (s.reverseReplaced rest.length d)) (s.reverseNonces rest.length d))
+          rest.length ((s.reverseStorage rest.length d).map (·.1)),
+         (writeSlots cfg (s.trie, s.leaves) (s.reverseStorage rest.length d)).1,
+         (writeSlots cfg (s.trie, s.leaves) (s.reverseStorage rest.length d)).2) d.deployed).2.2) d.touched a
+    have e2 : ∀ (x : Bucket Addr Contract × Bucket Addr Leaves), lget x.2 a = (clGet x a).2 := fun _ => rfl
+    rw [e2, hp]
+    have h21 := congrArg (fun t => t.2.1) (hdc a)
+    have h22 := congrArg (fun t => t.2.2) (hdc a)
+    simp only at h21 h22
+    split
+    · next hhit =>
+      have := hhit.2.2.2
+      simp only [List.isEmpty_iff] at this
+      simp [this]
+    · simp only [clGet]
+      rw [h21, h22]
+      by_cases hmem : a ∈ d.deployed.map (·.1)
+      · simp [hmem]
+      · simp only [hmem, if_false]
+        exact (hws a).2.2 hfix (hinv.leaves hfix a)
+  · intro c
+    simp only
+    rw [undeclareFold_get, hinv.classes c, habs]
+    simp only [AbsSt.apply]
+    by_cases hx : (absOf rest).decl c = none
+    · by_cases hc : c ∈ d.classHashes <;> simp [hx, hc]
+    · obtain ⟨n, hn⟩ := Option.ne_none_iff_exists'.mp hx
+      have := decl_lt rest c n hn
+      have hne : n ≠ rest.length := by omega
+      simp [hn, hne]
+
 end Juno.C03
